@@ -254,6 +254,24 @@ fn cmd_worker(a: &Args) -> i32 {
                     let mut ops = ro.trace.ops.clone();
                     let total = ops.len();
                     ops.truncate(12);
+                    // long payloads are abbreviated in the evidence samples (replay files keep them whole)
+                    fn abbreviate(v: &mut Value) {
+                        match v {
+                            Value::String(s) if s.len() > 96 => {
+                                let n = s.len();
+                                let mut cut = 64;
+                                while !s.is_char_boundary(cut) {
+                                    cut -= 1;
+                                }
+                                s.truncate(cut);
+                                s.push_str(&format!("...({} chars)", n));
+                            }
+                            Value::Array(a) => a.iter_mut().for_each(abbreviate),
+                            Value::Object(o) => o.values_mut().for_each(abbreviate),
+                            _ => {}
+                        }
+                    }
+                    ops.iter_mut().for_each(abbreviate);
                     stats.samples.push(serde_json::json!({
                         "run_index": i, "run_seed": ro.trace.run_seed, "cfg": ro.trace.cfg,
                         "first_ops": ops, "ops_total": total
